@@ -31,11 +31,12 @@ def first_failure(res):
 
 
 def _worker(job):
-    seedstr, n, sizes, capture = job
+    seedstr, n, sizes, capture = job[:4]
+    profiles = job[4] if len(job) > 4 and job[4] else PROFILES
     rng = random.Random(seedstr)
     out = []
     for _ in range(n):
-        prof = rng.choice(PROFILES)
+        prof = rng.choice(profiles)
         rounds = G.gen_rounds(rng, rng.randint(1, sizes[0]), rng.randint(2, sizes[1]), prof)
         res = G.run_case(rounds, capture=capture)
         deps = [d for r in res for d in r.get("deps", [])] if capture else []
@@ -45,8 +46,8 @@ def _worker(job):
     return out
 
 
-def run_random(pid, seed, tag, nchunks, per, sizes, capture=False, procs=6):
-    jobs = [("%s:%d:%d:%s" % (pid, seed, c, tag), per, sizes, capture) for c in range(nchunks)]
+def run_random(pid, seed, tag, nchunks, per, sizes, capture=False, procs=6, profiles=None):
+    jobs = [("%s:%d:%d:%s" % (pid, seed, c, tag), per, sizes, capture, profiles) for c in range(nchunks)]
     if procs <= 1:
         res = [_worker(j) for j in jobs]
     else:
